@@ -120,7 +120,13 @@ def sym_points(syms, rsym=None):
     if rsym is not None and getattr(rsym, "expr", None) is not None:
         for L in _literals_of(rsym.expr):
             pts.append({s: V("real", N.mpf(L) + N.mpf("0.004") + N.mpf(7 * i) / 10000, 0) for i, s in enumerate(order)})
-    return [_dbl(pt) for pt in pts]
+    out = [_dbl(pt) for pt in pts]
+    if order and all(s[0] == "r" for s in order):
+        # measured photon numbers are integers: small counts, large counts close together (differences of powers cancel) and
+        # counts whose squares need more than 53 bits -- an integer formula over integer results has an exact integer value
+        for base, step in ((3, 2), (300001, -1), (94906267, 1)):
+            out.append({s: N.from_int(base + step * i) for i, s in enumerate(order)})
+    return out
 
 
 def sym_matches(rsym, act_fn, rtol=1e-9):
